@@ -45,6 +45,17 @@ def comp_spec(case):
     return {"name": "comp", "commits": commits, "branches": {"release/1.0": len(commits) - 1}, "tags": tags}
 
 
+def comp2_spec(case):
+    """a second, linear component 'libb' (branch release/4.2) pinned by the same parent"""
+    commits = []
+    for i, c in enumerate(case["comp2"]["commits"]):
+        msg = ("%s in libb %d" % (case["search"], i)) if c["match"] else ("libb change %d" % i)
+        commits.append({"parents": [i - 1] if i else [], "msg": msg, "ts": 200 + i, "files": {"VERSION": "4.2"}})
+    tags = [["build_%d_release_4_2_success" % c["tag"], i] for i, c in enumerate(case["comp2"]["commits"])
+            if c.get("tag") is not None]
+    return {"name": "libb", "commits": commits, "branches": {"release/4.2": len(commits) - 1}, "tags": tags}
+
+
 def app_spec(case):
     commits = []
     for i, c in enumerate(case["app"]["commits"]):
@@ -61,7 +72,8 @@ def parent_spec(case):
     for i, c in enumerate(case["parent"]["commits"]):
         msg = ("%s in parent %d" % (case["search"], i)) if c["match"] else ("parent change %d" % i)
         commits.append({"parents": c["parents"], "msg": msg, "ts": 5000 + i * 10,
-                        "files": {"VERSION": "7.1", "DEPENDS": "# deps\ncomp=1.0.%d\nother=3.4.5\n" % c["pin"]}})
+                        "files": {"VERSION": "7.1", "DEPENDS": "# deps\ncomp=1.0.%d\nother=3.4.5\n" % c["pin"] +
+                                  ("libb=4.2.%d\n" % c["pin2"] if c.get("pin2") is not None else "")}})
     tags = [["build_%d_%s_success" % (c["tag"], tag_branch_str(c["tag_branch"])), i]
             for i, c in enumerate(case["parent"]["commits"]) if c.get("tag") is not None]
     return {"name": "main", "commits": commits, "branches": dict(case["parent"]["branches"]), "tags": tags}
@@ -163,13 +175,22 @@ def evaluate(case):
     crepo = fakegit.FakeRepo(comp_spec(case))
     prepo = fakegit.FakeRepo(parent_spec(case))
     CompCls = fakegit.make_project_repo_class(G, name="CompRepo")
-    MainCls = fakegit.make_project_repo_class(G, {"comp": "DEPENDS"}, name="MainRepo")
+    locs = {"comp": "DEPENDS"}
+    if case.get("comp2"):
+        locs["libb"] = "DEPENDS"
+    MainCls = fakegit.make_project_repo_class(G, locs, name="MainRepo")
     repos = {"comp": CompCls("comp", crepo, "origin"), "main": MainCls("main", prepo, "origin")}
     expected_order = ["comp", "main"]
+    if case.get("comp2"):
+        LibCls = fakegit.make_project_repo_class(G, name="LibbRepo")
+        repos["libb"] = LibCls("libb", fakegit.FakeRepo(comp2_spec(case)), "origin")
+        expected_order = None            # two independent components: only 'both before main' is required
+        classes.add("parent_pins_two_components")
     if case.get("app"):
         AppCls = fakegit.make_project_repo_class(G, {"main": "DEPS.txt"}, name="AppRepo")
         repos["app"] = AppCls("app", fakegit.FakeRepo(app_spec(case)), "origin")
-        expected_order.append("app")
+        if expected_order is not None:
+            expected_order.append("app")
         classes.add("three_level_chain")
     keys = list(repos)
     rot = case.get("order_rot", 0) % len(keys)
@@ -183,8 +204,12 @@ def evaluate(case):
     try:
         with call_budget(600000, "ak/ghist.py"):
             coll = G.ReposCollection(repos)
-            if coll.sorted_repos != expected_order:
+            if expected_order is not None and coll.sorted_repos != expected_order:
                 f.append(("component_not_analysed_first", f"sorted_repos={coll.sorted_repos}"))
+            if expected_order is None:
+                so = list(coll.sorted_repos)
+                if so.index("main") < 2 or ("app" in so and so.index("app") < so.index("main")):
+                    f.append(("component_not_analysed_first", f"sorted_repos={coll.sorted_repos}"))
             data = dict(coll.make_reports_data(case["search"]))
             if case.get("render"):
                 str(coll.make_report(case["search"]).ch_text(no_color=True))
@@ -210,6 +235,16 @@ def evaluate(case):
     incl, must_report, info = model_level(comp_parents, key_to_idx, K, case["parent"]["commits"], case["parent"]["branches"],
                                           "main", parent_label)
     classes |= info
+    if case.get("comp2"):
+        # the second component is judged by the same model, with its own pins
+        c2 = case["comp2"]["commits"]
+        seen2, K2 = reported_builds(data["libb"])
+        key2 = {c["tag"]: i for i, c in enumerate(c2) if c.get("tag") is not None}
+        pc2 = [dict(c, pin=c["pin2"]) for c in case["parent"]["commits"]]
+        inclb, mustb, _infob = model_level([[i - 1] if i else [] for i in range(len(c2))], key2, K2, pc2,
+                                           case["parent"]["branches"], "main", parent_label)
+        must_report = sorted(set(must_report) | set(mustb))
+        compare_level(f, "_second_component", seen2, K2, inclb, [], data["main"], ctx + f" comp2={c2!r} pins2={[c['pin2'] for c in pc2]!r}")
     compare_level(f, "", seen_builds, K, incl, must_report, data["main"], ctx)
     if case.get("app"):
         # second level: the parent repository is itself a component of 'app'
@@ -426,6 +461,20 @@ def st_case(draw, merges=False):
         c.pop("pin_i")
     case = {"search": search, "comp": {"commits": ccommits}, "parent": {"commits": pcommits, "branches": branches},
             "order_rot": draw(st.integers(0, 2)), "render": draw(st.integers(0, 4)) == 0}
+    if draw(st.integers(0, 3)) == 0:
+        n2 = draw(st.integers(1, 4))
+        nums2 = sorted(draw(st.lists(st.integers(1, 300), min_size=n2, max_size=n2, unique=True)))
+        c2 = [{"match": draw(st.booleans()), "tag": nums2[i] if (i == n2 - 1 or draw(st.integers(0, 2)) > 0) else None}
+              for i in range(n2)]
+        pins2 = [c["tag"] for c in c2 if c["tag"] is not None]
+        case["comp2"] = {"commits": c2}
+        # pins of the second component: never decreasing along every path (parents come first in the list)
+        for c in pcommits:
+            lo = max([pcommits[p]["_p2"] for p in c["parents"]], default=0)
+            c["_p2"] = draw(st.integers(lo, len(pins2) - 1))
+            c["pin2"] = pins2[c["_p2"]]
+        for c in pcommits:
+            c.pop("_p2")
     main_labels = [parent_label(c) for c in pcommits if c.get("tag") is not None]
     if main_labels and len(names) == 1 and draw(st.integers(0, 1)) == 0:
         # (only when the middle repository has a single branch: with several component branches 'contains' admits
